@@ -20,7 +20,8 @@
     theorems below by [vote_op]; what it does is stated in [C06_replay_goes_to_the_replayed_round]. *)
 From Coq Require Import List NArith.
 From GV Require Import Base.Ints Gen.Math Gen.Kernel Model.Mirror
-  Proofs.MirrorAuth Proofs.MirrorChain Proofs.MirrorCert Proofs.MirrorPower Proofs.MirrorPowerWitness.
+  Proofs.MirrorAuth Proofs.MirrorChain Proofs.MirrorCert Proofs.MirrorPower Proofs.MirrorPowerWitness
+  Proofs.MirrorPowerMsg.
 Import ListNotations.
 Local Open Scope N_scope.
 
@@ -152,6 +153,42 @@ Theorem C06_held_signatures_are_genuine_votes : forall v i,
   auth_view v -> In i (signer_set (v_pv v)) \/ In i (signer_set (v_pc v)) -> has_genuine_vote v i.
 Proof. exact held_signatures_genuine. Qed.
 Print Assumptions C06_held_signatures_are_genuine_votes.
+
+(** the two views of (3) are rounds r and r+1 of the voting height, over one validator set *)
+Theorem C06_views_are_round_r_and_next : forall ih ivs s,
+  1 <= ih -> vs_ok ivs = true -> reachable_b ih ivs s ->
+  v_h (k_nxt s) = v_h (k_vot s) /\ v_r (k_nxt s) = wrap32 (v_r (k_vot s) + 1) /\
+  v_vals (k_nxt s) = v_vals (k_vot s).
+Proof. exact views_are_round_r_and_next. Qed.
+Print Assumptions C06_views_are_round_r_and_next.
+
+(** (3) on the inputs of the operation.  [msg_signer keys kind m i]: validator [i] has in message [m] a
+    signature of its own key for exactly (kind, height and round of the message, the target it is filed
+    under).  [view_signer v i]: index [i] has a signature in a vote map of [v].  Every signer of the
+    merged state was a signer before or signs validly in the message ... *)
+Theorem C06_merged_signers_come_from_state_or_message : forall ih ivs kind s m vid sm i,
+  (kind = KPrevote \/ kind = KPrecommit) -> cinv ih ivs s ->
+  merge_point kind s m = Some (vid, sm) ->
+  view_signer (k_vot sm) i \/ view_signer (k_nxt sm) i ->
+  view_signer (k_vot s) i \/ view_signer (k_nxt s) i \/
+  msg_signer (vs_keys (v_vals (k_vot s))) kind m i.
+Proof. exact merged_signers_from_inputs. Qed.
+Print Assumptions C06_merged_signers_come_from_state_or_message.
+
+(** ... hence: if the validators that hold a genuine prevote or precommit for round r or r+1 of the voting
+    height before the message, together with the validators that sign validly in the message, have
+    distinct power below the Byzantine minority, the message moves neither round nor height. *)
+Theorem C06_minority_cannot_move_the_mirror_inputs : forall ih ivs s o kind m s' res S mn,
+  1 <= ih -> vs_ok ivs = true -> reachable_b ih ivs s ->
+  vote_op o = Some (kind, m) -> step s o = Ok (s', res) ->
+  nowrap (vs_pows (v_vals (k_vot s))) ->
+  byz_minority (sm_avail (v_sum (k_vot s))) = Ok mn ->
+  (forall i, has_genuine_vote (k_vot s) i \/ has_genuine_vote (k_nxt s) i \/
+             msg_signer (vs_keys (v_vals (k_vot s))) kind m i -> In i S) ->
+  idx_power (vs_pows (v_vals (k_vot s))) (nodup_n S) < mn ->
+  kpos_of s' = kpos_of s.
+Proof. exact minority_cannot_move_inputs. Qed.
+Print Assumptions C06_minority_cannot_move_the_mirror_inputs.
 
 (** without [nowrap] statement (3) is false: validator powers that overflow uint64 *)
 Theorem C06_minority_needs_nowrap_refuted :
